@@ -75,8 +75,11 @@ namespace lang
         }
 
         constexpr fixed_vector(fixed_vector<value_type>&& v)
-        : capacity_(v.capacity_), data_(std::move(v.data_))
+        : size_(v.size_), capacity_(v.capacity_), data_(std::move(v.data_))
         {
+            // the moved-from container stays usable: empty, with storage for its capacity
+            v.size_ = 0;
+            v.data_ = std::make_unique<value_type[]>(v.capacity_);
         }
 
         constexpr fixed_vector operator=(const fixed_vector& v)
